@@ -240,3 +240,135 @@ Proof.
       apply in_or_app. right. exact Hin. }
     rewrite rstrip_nl_no_nl by exact Hno. rewrite app_assoc, rstrip_app_rstrip, <- app_assoc. now rewrite <- Eln.
 Qed.
+
+(* ---- a row is put at its place ---- *)
+Definition hl_step (st : hst) (t : token) : hst := if (tk_srow t =? 0)%Z then st else hl_token st t.
+Definition not_end (t : token) : Prop := tk_srow t = 0%Z \/ tk_kind t <> TkEnd.
+Lemma hl_loop_app pre : forall rest st, Forall not_end pre -> hl_loop (pre ++ rest) st = hl_loop rest (fold_left hl_step pre st).
+Proof.
+  induction pre as [|t pre IH]; intros rest st H; cbn [app fold_left hl_loop]; [reflexivity|].
+  inversion H as [|? ? Ht Hr]; subst. unfold hl_step at 2.
+  destruct (Z.eqb_spec (tk_srow t) 0) as [E|E]; [now apply IH|].
+  destruct Ht as [Ht|Ht]; [contradiction|]. destruct (tk_kind t); try congruence; now apply IH.
+Qed.
+
+Lemma hl_newline_idem st t : hl_newline (hl_newline st t) t = hl_newline st t.
+Proof.
+  unfold hl_newline. destruct (h_curline st <? tk_srow t)%Z eqn:E; cbn [h_curline].
+  - now rewrite Z.ltb_irrefl.
+  - now rewrite E.
+Qed.
+Lemma hl_token_newline st t : hl_token st t = hl_token (hl_newline st t) t.
+Proof. unfold hl_token. now rewrite hl_newline_idem. Qed.
+
+(* lines only grow *)
+Lemma hl_newline_prefix st t : exists suf, h_lines (hl_newline st t) = h_lines st ++ suf.
+Proof.
+  unfold hl_newline. destruct (h_curline st <? tk_srow t)%Z; cbn [h_lines]; [eexists; reflexivity|exists []; now rewrite app_nil_r].
+Qed.
+Lemma hl_token_prefix st t : exists suf, h_lines (hl_token st t) = h_lines st ++ suf.
+Proof.
+  destruct (hl_newline_prefix st t) as (s1 & E1). unfold hl_token.
+  destruct (new_type t); [|exists s1; exact E1].
+  destruct (tk_srow t <? tk_erow t)%Z; cbn [h_lines]; rewrite E1.
+  - eexists. rewrite <- app_assoc. reflexivity.
+  - exists s1. reflexivity.
+Qed.
+Lemma hl_loop_prefix : forall toks st, exists suf, hl_loop toks st = h_lines st ++ suf.
+Proof.
+  induction toks as [|t toks IH]; intros st; cbn [hl_loop]; [exists []; now rewrite app_nil_r|].
+  destruct (tk_srow t =? 0)%Z; [apply IH|].
+  destruct (hl_token_prefix st t) as (s1 & E1). destruct (IH (hl_token st t)) as (s2 & E2).
+  destruct (tk_kind t); try (exists (s1 ++ s2); rewrite E2, E1, app_assoc; reflexivity).
+  eexists; reflexivity.
+Qed.
+
+Definition has_real (ts : list token) : Prop := exists t, In t ts /\ new_type t <> None.
+Lemma run_row_some ln r : forall ts c st,
+  on_row ln r c st -> row_wf ln r c ts -> has_real ts ->
+  h_last (run_tokens ts st) = Some ln /\ h_type (run_tokens ts st) <> None.
+Proof.
+  induction ts as [|t ts IH]; intros c st Hon Hwf (t0 & Hin & Hreal); [contradiction|].
+  cbn [run_tokens fold_left]. cbn [row_wf] in Hwf. destruct Hwf as (Ht & Hrest).
+  pose proof (hl_token_on_row ln r c st t Hon Ht) as Hstep.
+  destruct (new_type t) as [nt|] eqn:Ent.
+  - destruct Hrest as (Hle & Hrest). destruct (Hstep Hle) as (Hon' & _ & Hlast).
+    assert (h_type (hl_token st t) <> None) as Hty.
+    { unfold hl_token. rewrite Ent. destruct (tk_srow t <? tk_erow t)%Z; cbn [h_type]; discriminate. }
+    clear Hstep. revert Hon' Hrest Hlast Hty. generalize (hl_token st t) (tk_ecol t). clear.
+    induction ts as [|t ts IH]; intros st c Hon Hwf Hlast Hty; cbn [fold_left]; [split; assumption|].
+    cbn [row_wf] in Hwf. destruct Hwf as (Ht & Hrest).
+    pose proof (hl_token_on_row ln r c st t Hon Ht) as Hstep.
+    destruct (new_type t) as [nt|] eqn:Ent.
+    + destruct Hrest as (Hle & Hrest). destruct (Hstep Hle) as (Hon' & _ & Hlast').
+      apply (IH _ _ Hon' Hrest Hlast').
+      unfold hl_token. rewrite Ent. destruct (tk_srow t <? tk_erow t)%Z; cbn [h_type]; discriminate.
+    + rewrite Hstep. now apply (IH _ _ Hon Hrest).
+  - rewrite Hstep. destruct Hin as [->|Hin]; [congruence|]. apply (IH _ _ Hon Hrest). exists t0. split; assumption.
+Qed.
+
+Definition lines_inv (st : hst) : Prop := Z.of_nat (length (h_lines st)) = (h_curline st - 1)%Z.
+
+Lemma nth_error_app_here {X} (l : list X) x rest : nth_error (l ++ x :: rest) (length l) = Some x.
+Proof. rewrite nth_error_app2 by lia. now rewrite Nat.sub_diag. Qed.
+
+Lemma newline_keeps_inv st t : lines_inv st -> (h_curline st <= tk_srow t)%Z -> lines_inv (hl_newline st t).
+Proof.
+  unfold lines_inv, hl_newline. intros H Hle. destruct (Z.ltb_spec (h_curline st) (tk_srow t)); [|exact H].
+  cbn [h_lines h_curline]. rewrite !app_length. cbn [length]. rewrite repeat_length. lia.
+Qed.
+(* The row theorem.  st: the state reached before the row (any earlier tokens); the row's tokens lie on the physical
+   line ln, in order, each covering its own slice; then comes a token of a later row, or the end marker. *)
+Lemma row_in_place ln r st row nxt post :
+  lines_inv st -> before_row r st -> (1 <= r)%Z ->
+  row <> [] -> row_wf ln r 0 row -> has_real row -> phys_line ln ->
+  tk_srow nxt <> 0%Z ->
+  (tk_kind nxt = TkEnd /\ Forall (fun c => is_space c = true) (skipn (Z.to_nat (row_end 0 row)) ln)
+   \/ tk_kind nxt <> TkEnd /\ (r < tk_srow nxt)%Z) ->
+  exists closed, nth_error (hl_loop (row ++ nxt :: post) st) (Z.to_nat (r - 1)) = Some closed /\ closes_as ln closed.
+Proof.
+  intros Hinv Hbefore Hr1 Hne Hwf Hreal Hphys Hnz Hnext.
+  assert (Forall not_end row) as Hrow_ne.
+  { clear -Hwf. revert Hwf. generalize 0%Z. induction row as [|t ts IH]; intros c Hwf; constructor.
+    - cbn [row_wf] in Hwf. destruct Hwf as ((_ & _ & _ & _ & Hk & _) & _). right. exact Hk.
+    - cbn [row_wf] in Hwf. destruct Hwf as (_ & Hrest). destruct (new_type t); [destruct Hrest as (_ & Hrest)|]; eapply IH; eassumption. }
+  rewrite hl_loop_app by exact Hrow_ne.
+  assert (fold_left hl_step row st = run_tokens row st) as ->.
+  { clear -Hwf. revert st Hwf. generalize 0%Z. induction row as [|t ts IH]; intros c st Hwf; [reflexivity|].
+    cbn [fold_left run_tokens]. cbn [row_wf] in Hwf. destruct Hwf as ((Hs & _ & _ & _ & _ & Hr0 & _) & Hrest).
+    unfold hl_step at 2. destruct (Z.eqb_spec (tk_srow t) 0); [congruence|].
+    destruct (new_type t); [destruct Hrest as (_ & Hrest)|]; eapply IH; eassumption. }
+  destruct row as [|t1 rest]; [contradiction|].
+  assert (tk_srow t1 = r) as Hs1 by (cbn [row_wf] in Hwf; destruct Hwf as ((H & _) & _); exact H).
+  destruct (newline_opens_row ln r st t1 Hbefore Hs1) as (Hon0 & Hlines0).
+  assert (run_tokens (t1 :: rest) st = run_tokens (t1 :: rest) (hl_newline st t1)) as Erun.
+  { unfold run_tokens. cbn [fold_left]. now rewrite (hl_token_newline st t1), (hl_token_newline (hl_newline st t1) t1), hl_newline_idem. }
+  rewrite Erun. set (st0 := hl_newline st t1) in *.
+  destruct (run_row ln r (t1 :: rest) 0 st0 Hon0 Hwf) as (Hon1 & Hlines1).
+  destruct (run_row_some ln r (t1 :: rest) 0 st0 Hon0 Hwf Hreal) as (Hlast1 & Hty1).
+  set (st1 := run_tokens (t1 :: rest) st0) in *.
+  assert (length (h_lines st1) = Z.to_nat (r - 1)) as Hlen.
+  { rewrite Hlines1. pose proof (newline_keeps_inv st t1 Hinv) as Hinv0. fold st0 in Hinv0.
+    unfold lines_inv in Hinv0. destruct Hon0 as (Hcl0 & _). rewrite Hcl0 in Hinv0.
+    assert ((h_curline st <= tk_srow t1)%Z) as Hle by (rewrite Hs1; destruct Hbefore as [Hlt|(-> & ->)]; [lia|cbn; lia]).
+    specialize (Hinv0 Hle). lia. }
+  destruct Hnext as [(Hend & Hspace)|(Hnend & Hlater)].
+  - cbn [hl_loop]. destruct (Z.eqb_spec (tk_srow nxt) 0); [contradiction|]. rewrite Hend.
+    eexists. split; [rewrite <- Hlen; apply nth_error_app_here|].
+    destruct Hon1 as (_ & Hc1 & Hc0 & Ht1 & _). destruct (h_type st1) as [ty|]; [|contradiction].
+    unfold closes_as, flush_chunk. rewrite chunks_text_app. unfold chunks_text at 2. cbn [flat_map snd]. rewrite app_nil_r.
+    unfold text_of in Ht1. rewrite Ht1. rewrite <- (firstn_skipn (Z.to_nat (row_end 0 (t1 :: rest))) ln) at 2.
+    symmetry. apply rstrip_app_spaces. exact Hspace.
+  - cbn [hl_loop]. destruct (Z.eqb_spec (tk_srow nxt) 0); [contradiction|].
+    assert (exists more, h_lines (hl_token st1 nxt)
+              = h_lines st1 ++ (h_line st1 ++ flush_chunk (h_type st1) (rstrip_nl (h_buf st1) ++ line_rest st1)) :: more) as (more & Emore).
+    { rewrite hl_token_newline. destruct (hl_token_prefix (hl_newline st1 nxt) nxt) as (suf & E). rewrite E.
+      unfold hl_newline. destruct Hon1 as (Hcl & _). rewrite Hcl. destruct (Z.ltb_spec r (tk_srow nxt)); [|lia].
+      cbn [h_lines]. eexists. rewrite <- !app_assoc. cbn [app]. reflexivity. }
+    assert (exists suf, hl_loop post (hl_token st1 nxt) = h_lines (hl_token st1 nxt) ++ suf) as (suf & Esuf) by apply hl_loop_prefix.
+    assert (hl_loop post (hl_token st1 nxt) = match tk_kind nxt with TkEnd => h_lines st1 ++ [h_line st1 ++ flush_chunk (h_type st1) (h_buf st1)] | _ => hl_loop post (hl_token st1 nxt) end) as E0
+      by (destruct (tk_kind nxt); try reflexivity; congruence).
+    rewrite <- E0, Esuf, Emore, <- app_assoc. cbn [app].
+    eexists. split; [rewrite <- Hlen; apply nth_error_app_here|].
+    apply (close_row ln r _ st1 Hon1 Hlast1 Hphys Hty1).
+Qed.
